@@ -1,5 +1,6 @@
 """C03 worker: fix variables on the implementation, observe coefficients before/after."""
 import copy
+import json
 from fractions import Fraction
 import numpy as np
 import dimod
@@ -76,7 +77,39 @@ def gen_case(rng, tier):
     nf = rng.randint(1, len(allvars))
     chosen = rng.sample(allvars, nf)
     fixes = [[v[0], rand_value(rng, v[1])] for v in chosen]
-    return {"kind": kind, "exprs": exprs, "allvars": allvars, "fixes": fixes}
+    c = {"kind": kind, "exprs": exprs, "allvars": allvars, "fixes": fixes}
+    # label shapes: sometimes the default integer labels 0..n-1 in order (a range-labelled Variables object)
+    if rng.random() < 0.3:
+        c = relabel_range(c)
+    # BQMs are also fixed through the live view of the opposite vartype (values in the view's domain)
+    if kind.startswith('bqm'):
+        c["via_view"] = rng.random() < 0.4
+        if c["via_view"]:
+            vt = c["exprs"][0].get("vartype") or (c["allvars"][0][1] if c["allvars"] else 'BINARY')
+            other = 'SPIN' if vt == 'BINARY' else 'BINARY'
+            c["fixes"] = [[l, rand_value(rng, other)] for l, _ in c["fixes"]]
+    return c
+
+
+def relabel_range(c):
+    """rename the variables to 0..n-1 in the order they are added"""
+    key = lambda l: json.dumps(l, sort_keys=True)
+    m = {key(v[0]): i for i, v in enumerate(c["allvars"])}
+    r = lambda l: m[key(l)]
+
+    def rex(e):
+        e = dict(e)
+        e["vars"] = [[r(v[0])] + list(v[1:]) for v in e["vars"]]
+        e["lin"] = [[r(t[0]), t[1]] for t in e["lin"]]
+        e["quad"] = [[r(t[0]), r(t[1]), t[2]] for t in e["quad"]]
+        return e
+    out = dict(c)
+    out["exprs"] = [rex(e) for e in c["exprs"]]
+    # the model variables must come first and in order for the labels to form a range
+    out["allvars"] = [[r(v[0])] + list(v[1:]) for v in c["allvars"]]
+    out["fixes"] = [[r(l), x] for l, x in c["fixes"]]
+    out["range_labels"] = True
+    return out
 
 
 def build_cqm(c):
@@ -167,13 +200,18 @@ def run_case(c):
             m = gen.build_qm(e)
         else:
             m = gen.build_bqm(e, dtype={'bqm64': np.float64, 'bqm32': np.float32, 'bqmobj': object}[kind])
-        before = [gen.observe(m)]
+        handle = m
+        if c.get("via_view") and kind != 'qm':
+            # fix through the live view of the opposite vartype; coefficients are read through the same view
+            handle = m.binary if m.vartype is dimod.SPIN else m.spin
+            feats["via_view"] = True
+        before = [gen.observe(handle)]
         vars_before = list(m.variables)
         if len(fixes) == 1:
-            m.fix_variable(*fixes[0])
+            handle.fix_variable(*fixes[0])
         else:
-            m.fix_variables(dict(fixes) if len(fixes) % 2 else fixes)
-        after = [gen.observe(m)]
+            handle.fix_variables(dict(fixes) if len(fixes) % 2 else fixes)
+        after = [gen.observe(handle)]
         want = [v for v in vars_before if v not in dict(fixes)]
         if list(m.variables) != want:
             py_fail = f"variables after fixing are {list(m.variables)!r}, expected {want!r}"
